@@ -1,5 +1,6 @@
 """C19 — JSON serialisation round-trips and is valid JSON (one agreement clause: the readers' value-kind dispatch accepts every
 first character the writer can emit; sibling dispatchers agree).  Value-level round trip is not decided."""
+import re
 from ..callgraph import callee_name
 from ..cfg import cfg_of, term_succs
 from ..dataflow import du_of, place_key
@@ -604,4 +605,36 @@ def run(ctx):
     chk.assumptions += ["the writer emits integers and finite floats through Display (first character a digit or '-'), strings in double quotes, true / false / null literally",
                         "kind flags computed from the dispatch character before any inner loop are fixed by the first-character class; flags computed after an inner loop may see another character and are treated as unknown"]
     chk.undecided = ["digits of floats / exponents, string content and escaping, nesting depth, equality of values after the round trip"]
+    # ---- R6 a typed number reader parses at a width that holds every value of its element type
+    r6 = chk.rule("R6-reader-width-holds-the-element-type", "every `parse::<X>()` on the way from a typed integer list reader to its result has a range that contains the reader's element type T (`parse::<i128>` then `T::try_from` loses the upper half of u128)", floor=8)
+    from ..ints import ty_range
+    from ..inline import is_private_helper as _iph
+    for rn, rf in sorted(F.fns.items()):
+        m_ = re.search(r"Result<std::vec::Vec<([iu](8|16|32|64|128|size))>", rf.ret or "")
+        if rf.crate != "rws" or rf.kind not in ("Fn", "AssocFn") or not m_ or "::json::" not in ("::" + rn) or _iph(F, rn):
+            continue
+        T = m_.group(1)
+        fam, stack_, seen_ = [rf], [rn], {rn}
+        while stack_:
+            x_ = stack_.pop()
+            for e_ in G.out.get(x_, []):
+                g_ = F.fns.get(e_.dst)
+                if g_ is not None and g_.crate == "rws" and e_.dst not in seen_ and (g_.kind == "Closure" or _iph(F, e_.dst)):
+                    seen_.add(e_.dst)
+                    stack_.append(e_.dst)
+                    fam.append(g_)
+        widths = []
+        for g_ in fam:
+            for _, t_ in g_.calls():
+                if (callee_name(t_) or "").endswith("impl str>::parse") and t_.get("gargs"):
+                    widths.append((t_["gargs"][0], t_["span"]["line"], g_.def_))
+        tr = ty_range(T)
+        for X, line_, where_ in widths:
+            if X == "T" or not re.fullmatch(r"[iu](8|16|32|64|128|size)", X or ""):
+                continue        # parsed at the element type itself (generic helper instantiated per reader) / not an integer parse
+            xr = ty_range(X)
+            ok = xr is not None and tr is not None and xr[0] <= tr[0] and tr[1] <= xr[1]
+            r6.instance({"reader": rn, "element_type": T, "parsed_as": X, "in": where_}, ok)
+            if not ok:
+                r6.violate("C19|R6|%s|%s" % (rn, X), "%s returns Vec<%s> but its elements are parsed as %s (in %s): values of %s outside %s are rejected or wrapped although the writer produces them" % (rn, T, X, where_, T, X), rf.file, line_, rn)
     return chk.finish()
